@@ -109,6 +109,32 @@ func checkC01(c *Ctx) {
 			c.Probes["mnc-3-digits"]++
 		}
 	})
+	// procedure-level part: the same NG Setup + registration exchange for 2..4 explicit subscribers
+	// in one process - roamers from other PLMNs, subscribers with credentials of their own (one
+	// operator's OP with different keys, the same value as OPc and as OP, keys one bit apart), all
+	// contexts created before the first registers - judged by the same reference AMF with every rule
+	nMulti := 1500
+	if c.Tier == "thorough" {
+		nMulti = 100000
+	}
+	rm := kernel.New(c.Seed).Sub("c01-multi")
+	var mj []Job
+	for i := 0; i < nMulti; i++ {
+		mj = append(mj, multiJobs(rm, 1, multiOpts{profile: "c01-multi", viaCreate: i%2 == 0, roamers: true, ownCreds: true, latency: "swarm-fast"}, "ps-multi", "c01-multi")...)
+	}
+	c.Batch(mj, func(j Job, r *Run, fs []Finding) {
+		c.Probes["multi-subscriber-procedure-runs"]++
+		for _, sub := range j.S.Subscribers[1:] {
+			if !strings.HasPrefix(sub, j.S.Config.MCC+j.S.Config.MNC) {
+				c.Probes["roaming-subscribers"]++
+			}
+		}
+		for _, cr := range j.S.SubCreds {
+			if cr.K != "" {
+				c.Probes["subscribers-with-own-credentials"]++
+			}
+		}
+	})
 }
 
 var assumptionsWS = []string{
@@ -402,9 +428,26 @@ func checkC16(c *Ctx) {
 			jobs = append(jobs, Job{S: s, Rig: "ws", Judge: "ws-c16", Tag: fmt.Sprintf("c16/N=%d", n)})
 		}
 	}
+	nMulti := 1200
+	if c.Tier == "thorough" {
+		nMulti = 60000
+	}
+	jobs = append(jobs, multiJobs(root.Sub("multi"), nMulti, multiOpts{profile: "c16-multi", viaCreate: true, roamers: true, ownCreds: true}, "ps-multi-c16", "c16-multi")...)
 	sh := map[string]bool{}
 	c.Batch(jobs, func(j Job, r *Run, fs []Finding) {
 		cfg := j.S.Config
+		if len(j.S.Subscribers) > 0 {
+			// UE creation for several subscribers (and several credential sets) in one process
+			c.Probes["multi-subscriber-creations"] += len(j.S.Subscribers)
+			own := 0
+			for _, cr := range j.S.SubCreds {
+				if cr.K != "" {
+					own++
+				}
+			}
+			sh[fmt.Sprintf("multi/%d/%d/%d/%v", len(j.S.Subscribers), len(cfg.IMSI), own, cfg.OPC == "")] = true
+			return
+		}
 		if cfg.NReg >= 2 {
 			sh[fmt.Sprintf("%d/%d/%d/%v/%s", cfg.NReg, len(cfg.IMSI), len(cfg.MNC), strings.HasPrefix(cfg.IMSI[3+len(cfg.MNC):], "0"), carryShape(cfg.IMSI, cfg.NReg))] = true
 			if carryShape(cfg.IMSI, cfg.NReg) != "none" {
